@@ -93,4 +93,45 @@ Example wimg_shape_x :
   existsb (fun m => negb (m_is_leaf m)) (im_methods wimg_x) = true.
 Proof. repeat split; vm_compute; reflexivity. Qed.
 
+
+(* ---- non-vacuity of the tamper theorem (MethodContractFixer.every_fixer_method_tamper_traps):
+   a method of the witness image that makes three calls, entered with its return address registered ---- *)
+Fixpoint first_nonleaf (ms : list method) (i : nat) : option (nat * method) :=
+  match ms with
+  | [] => None
+  | m :: tl => match m_callees m with [] => first_nonleaf tl (Datatypes.S i) | _ => Some (i, m) end
+  end.
+
+Definition wid_x : nat := match first_nonleaf (im_methods wimg_x) 0 with Some (i, _) => i | None => O end.
+Definition wm_x : method :=
+  match first_nonleaf (im_methods wimg_x) 0 with Some (_, m) => m | None => mk_method 0 0 0 0 0 0 0 [] [] end.
+Definition ws1_x : mstate := set_cfi (set_pc ws0_x (m_addr wm_x)) [5242880].
+
+Theorem fixer_tamper_nonvacuous :
+  nth_error (im_methods wimg_x) wid_x = Some wm_x /\ m_is_leaf wm_x = false /\ m_callees wm_x <> [] /\ 0 < m_body wm_x /\
+  placed wcfg_fixer2 wimg_x wL_x /\ code_loaded wimg_x ws1_x /\ pc ws1_x = m_addr wm_x /\
+  env_ok (gv wcfg_fixer2) wL_x (c_data_reg wcfg_fixer2) ws1_x /\
+  (let N := need_method wcfg_fixer2 (im_methods wimg_x) (max_depth (im_methods wimg_x)) wid_x in
+   let S := rget ws1_x 2 in
+   S mod 8 = 0 /\ N <= S < W64 /\ stk_lo wL_x <= S - N /\ S <= stk_hi wL_x) /\
+  0 <= rget ws1_x 8 < W64 /\ 0 <= rget ws1_x 1 < W64 /\ cfi ws1_x = rget ws1_x 1 :: [].
+Proof.
+  split; [vm_compute; reflexivity|]. split; [vm_compute; reflexivity|].
+  split; [vm_compute; discriminate|]. split; [vm_compute; reflexivity|].
+  split.
+  { apply (xflat_placed wcfg_fixer2 wscript_fixer2 wimg_x wimg_successful_x wL_x ws0_x ws0_init_x); [reflexivity|vm_compute; reflexivity]. }
+  split.
+  { destruct (xflat_loaded wcfg_fixer2 wscript_fixer2 wimg_x wimg_successful_x wL_x ws0_x ws0_init_x eq_refl) as (H & _).
+    assert (Em : mem ws1_x = mem ws0_x) by (unfold ws1_x, set_cfi, set_pc; cbn [mem]; reflexivity).
+    unfold code_loaded in *. rewrite Em. exact H. }
+  split; [unfold ws1_x, set_cfi, set_pc; cbn [pc]; reflexivity|].
+  split; [constructor; [vm_compute; reflexivity|exact I]|].
+  split; [vm_compute; repeat split; discriminate || reflexivity|].
+  split; [vm_compute; split; [discriminate|reflexivity]|].
+  split; [vm_compute; split; [discriminate|reflexivity]|].
+  vm_compute. reflexivity.
+Qed.
+
+
 Print Assumptions fixer_image_from_files_nonvacuous.
+Print Assumptions fixer_tamper_nonvacuous.
